@@ -846,7 +846,7 @@ func helperTrueOnlyUnderSchemeTest(fn *ssa.Function, idx int, hasTls types.Objec
 	return done && okAll && nret > 0
 }
 
-func c04Correlation(w *World, r *Report, sites []connectSite) {
+func c04CorrelationClient(w *World, r *Report, rule string, sites []connectSite) {
 	hasTls := w.Pkg("internal/util/addr").Types.Scope().Lookup("HasTls")
 	// --- client side: secure argument of NewClientConnection
 	for _, cs := range sites {
@@ -854,7 +854,7 @@ func c04Correlation(w *World, r *Report, sites []connectSite) {
 		pos := w.Pos(cs.Call.Pos())
 		args := cs.Call.Call.Args
 		if len(args) < 3 {
-			r.Undecided("R04.5", key, pos, "unexpected NewClientConnection arity")
+			r.Undecided(rule, key, pos, "unexpected NewClientConnection arity")
 			continue
 		}
 		secArg, fsec := cs.lift(args[2])
@@ -866,7 +866,7 @@ func c04Correlation(w *World, r *Report, sites []connectSite) {
 			secArg, connArg, frame = args[2], args[0], cs.Frames[len(cs.Frames)-1]
 		}
 		if b, isC := constBool(secArg); isC && !b {
-			r.Hold("R04.5", key, pos, "secure argument is the constant false (StartTLS may still upgrade)")
+			r.Hold(rule, key, pos, "secure argument is the constant false (StartTLS may still upgrade)")
 			continue
 		}
 		bad := ""
@@ -923,12 +923,16 @@ func c04Correlation(w *World, r *Report, sites []connectSite) {
 			}
 		})
 		if !okp {
-			r.Undecided("R04.5", key, pos, "path budget exceeded")
+			r.Undecided(rule, key, pos, "path budget exceeded")
 			continue
 		}
-		r.Check(bad == "", "R04.5", key, pos, fmt.Sprintf("%d path(s) can pass secure=true; each has a TLS-built carrier or a TLS scheme test", ntrue), bad, "secure_true_paths", ntrue, "scheme_guarded", schemeGuarded)
+		r.Check(bad == "", rule, key, pos, fmt.Sprintf("%d path(s) can pass secure=true; each has a TLS-built carrier or a TLS scheme test", ntrue), bad, "secure_true_paths", ntrue, "scheme_guarded", schemeGuarded)
 	}
 
+}
+
+func c04Correlation(w *World, r *Report, sites []connectSite) {
+	c04CorrelationClient(w, r, "R04.5", sites)
 	// --- server side: secure argument of AcceptConnection
 	acc := w.Func("internal/server", "AcceptConnection")
 	if acc == nil {
